@@ -1268,6 +1268,11 @@ class Node:
         self.remove_peer_connection(conn, disconnect_reason)
 
     def receive_cea(self, conn: PeerConnection, message: CapabilitiesExchangeAnswer):
+        if conn.state != PEER_CONNECTED:
+            self.logger.warning(
+                f"{conn} got a CEA while not waiting for one, ignoring")
+            return
+
         if message.result_code != constants.E_RESULT_CODE_DIAMETER_SUCCESS:
             self.logger.warning(
                 f"{conn} CER rejected with {message.result_code} (message: "
